@@ -51,7 +51,7 @@ COMMON_FRAMES = [U('pyvc.frames', 'render_write_frame', 'render.write_frame'),
 S_MORE = [K("k3::S-Switch"), K("k3::S-Case-Condition"), K("k3::S-Switch-nested"), K("k3::S-Case-OnError")]
 S_COMMENT = [K("k3::S-Comment-noninterp"), K("k3::S-Comment-drop"), K("k3::S-Comment-interp"), K("k3::S-Comment-dollar-name")]
 TAL_BASIC = [K("k3::S-Define"), K("k3::S-Define-clauses"), K("k3::S-Define-tuple"), K("k3::S-Condition"), K("k3::S-Content"),
-             K("k3::S-Replace"), K("k3::S-Structure"), K("k3::S-OmitTag"),
+             K("k3::S-Replace"), K("k3::S-Replace-omit-expr"), K("k3::S-Structure"), K("k3::S-OmitTag"),
              K("k3::S-OmitTag-empty"), K("k3::S-OmitTag-selfclosing"),
              K("k3::S-Attribute"), K("k3::S-Attribute-quotes"), K("k3::S-Attribute-unquoted"), K("k3::S-Attribute-default-under-target"), K("k3::S-Attribute-boolean-interp"), K("k3::S-Define-nested-same"), K("k3::S-Repeat-indent"), K("k3::S-Repeat-comprehension"), K("k3::S-Attribute-dict"), K("k3::S-Attribute-dict-first"), K("k3::S-Literal"), K("k3::S-Combined"), K("k3::S-Repeat")]
 
@@ -423,6 +423,7 @@ PROPS = {
                       "B-ERRPOS (erroneous templates by family) and B-REJECT (labelled bounded, not counted). "
                       "Known finding D26: offsets behind a character reference inside one statement value.",
         "units": TOKEN + RESERVED + [K("k3::S-Define-reserved-after-escape"), K("k3::S-Attributes-invalid-after-escape"),
+                          K("k3::S-Interp-invalid-then-interp"), K("k3::S-Interp-invalid-then-brace"), K("k3::S-Interp-invalid-last"),
                           K("k3::S-Define-reserved-after-entity"), U('bounded.units', 'split', 'B-SPLIT'),
                           U('bounded.units', 'errpos', 'B-ERRPOS'),
                           # "a template without such an error is never rejected", for the forms of
